@@ -164,6 +164,8 @@ def classify(p):
             elif s[0] == "formula":
                 if any(mentions(e, objs) for f, e in s[5]):
                     out.append(("C17", "c17:formula-argument", text))      # an object (variable) given as argument
+                elif p.get("undefined_in_plan"):
+                    out.append(("C03", "c03:unjustified-atom", "%s: atoms %s are in the plan (phi true) with sigma undefined" % (text, p["undefined_in_plan"])))
                 else:
                     out.append(("C03", "c03:top-level-atom", text))
             else:
@@ -180,13 +182,19 @@ def classify(p):
         for t in fails:
             if t[0] == "rules":
                 kind = t[2] if len(t) > 2 else "constraint"
-                if kind == "structure":
+                if kind == "structure" and p.get("undefined_in_plan"):
+                    out.append(("C03", "c03:unjustified-atom", "rule of atom %s: atoms %s are in the plan (reached from an active rule / chosen disjunct, phi true) "
+                                "but neither active nor unified (sigma undefined)" % (t[1], p["undefined_in_plan"])))
+                elif kind == "structure":
                     out.append(("C03", "c03:rule-structure", "atom %s" % t[1]))
                 elif kind == "argument":
                     out.append(("C17" if prog and prog["classes"] else "C03", "c17:formula-argument" if prog and prog["classes"] else "c03:subgoal-argument",
                                 "a subgoal of atom %s does not have the arguments written in the rule" % t[1]))
                 else:
                     out.append(("C01", "c01:rule-constraint", "atom %s" % t[1]))
+    if p.get("n_flaws_left"):
+        out.append(("C03", "c03:open-flaws-at-solution", "solver::solve reported a solution with %d flaws still open%s" % (
+            p["n_flaws_left"], (" (atoms %s in the plan with sigma undefined)" % p["undefined_in_plan"]) if p.get("undefined_in_plan") else "")))
     if v.get("unified") is False:
         out.append(("C03", "c03:unified", "atoms %s" % [t[1] for t in fails if t[0] == "unified"]))
     if v.get("acyclic") is False:
@@ -284,7 +292,7 @@ def run(ctx, prop):
             d["attempted"] += 1
             d["rejected"] += 1 if m["rejected"] else 0
             d["expected_verdict_failed"] += 1 if m["expected_verdicts_failed"] else 0
-        cl = classify(p) if (v.get("solution") is not True or (v.get("derived") or {}).get("mismatches") or v.get("factrules_mismatch") or v.get("factrules_missing") or v.get("conv_unknown")
+        cl = classify(p) if (v.get("solution") is not True or p.get("n_flaws_left") or (v.get("derived") or {}).get("mismatches") or v.get("factrules_mismatch") or v.get("factrules_missing") or v.get("conv_unknown")
                              or v.get("rank_by_positions") is False or (v.get("positions_model") or {}).get("violations")) else []
         if not cl:
             accepted += 1
@@ -295,7 +303,7 @@ def run(ctx, prop):
     # not denote the field of any admissible choice (completeness of the field read; the general claim belongs to C02)
     # the same for the other directed families whose problems are satisfiable by construction: the planner must not reject them
     BYC = {"shadow": ("C06", "c06:rule-name-capture"), "smartboth": ("C06", "c06:smart-fact-both-rules"), "fwd": ("C17", "c17:forward-referenced-base-class"),
-           "samename": ("C06", "c06:same-simple-name")}
+           "samename": ("C06", "c06:same-simple-name"), "reopen": ("C03", "c03:reopened-flaw:sat-reported-unsolvable")}
     for p in res["problems"]:
         if p.get("expect") == "sat" and p["status"] in ("unsolvable", "exception") and p["family"] in BYC and BYC[p["family"]][0] == prop:
             mine.append((dict(p, verdict={"expected": "satisfiable by construction", "reported": p["status"], "what": p.get("what")}), BYC[p["family"]][1],
